@@ -178,4 +178,12 @@ def BndTree.eval (L U : Dbl) (k cvar : Nat) : BndTree → List Tok
       | .lEqU => L.ieeeEq U
     if c then y.eval L U k cvar else n.eval L U k cvar
 
+/-! ## `NLReader::ReadBounds`: per bound-type digit, where `lb` and `ub` come from -/
+inductive BndSrc | read | negInf | posInf | sameAsLb
+deriving DecidableEq, Repr, Inhabited
+inductive BndCase
+  | range (lb ub : BndSrc)     -- lb, ub assigned in this order, then ReadTillEndOfLine and SetBounds
+  | compl                      -- flags = ReadInt; var = ReadUInt in 1..num_vars; OnComplementarity(i, var-1, flags & 3) (constraints only)
+deriving DecidableEq, Repr, Inhabited
+
 end MpVerif.C03
